@@ -33,6 +33,83 @@ NOT_DECIDED = "run-time binding of every use on every program (follows from the 
 ASSUMPTIONS = ["uniqueness of visible names is what makes the VM's flat per-activation name map sound"]
 
 
+def _rooted_at(expr, fn, root: str, depth: int = 4) -> bool:
+    """every variable the expression reads is `root` itself or a local of fn bound (assignment, loop target, comprehension
+    target) from an expression that is, in turn, rooted at `root`; names of modules / classes (bound outside fn) are free."""
+    if depth <= 0:
+        return False
+    bound = {}
+    for n in ast.walk(fn):
+        if isinstance(n, ast.Assign):
+            for t in n.targets:
+                for x in ast.walk(t):
+                    if isinstance(x, ast.Name):
+                        bound.setdefault(x.id, []).append(n.value)
+        elif isinstance(n, (ast.For, ast.comprehension)):
+            for x in ast.walk(n.target):
+                if isinstance(x, ast.Name):
+                    bound.setdefault(x.id, []).append(n.iter)
+    params = {a.arg for a in fn.args.args}
+    for x in ast.walk(expr):
+        if not (isinstance(x, ast.Name) and isinstance(x.ctx, ast.Load)):
+            continue
+        if x.id == root:
+            continue
+        if x.id in params:
+            return False
+        if x.id in bound:
+            if not all(_rooted_at(v, fn, root, depth - 1) for v in bound[x.id]):
+                return False
+    return True
+
+
+def check_name_sources(model, col, rule):
+    """Every name a function body can bind to comes from a declaration of the module being compiled - a construct the name
+    validator visits: the typing scope is filled (RegisterVariable) from the handler's own node, and lowering's table of
+    global names from the module's own declarations.  A name that enters from elsewhere (an imported module's globals, say)
+    is one the validator never compared local names with."""
+    n = 0
+    for rel, fi in sorted(model.files.items()):
+        if not rel.startswith("nsl/passes/"):
+            continue
+        for ci in [c for c in model.classes.values() if c.file == rel]:
+            for m in ci.methods.values():
+                if len(m.args.args) < 2:
+                    continue
+                nodep = m.args.args[1].arg
+                for c in ast.walk(m):
+                    if isinstance(c, ast.Call) and last_attr(c) == "RegisterVariable" and c.args:
+                        n += 1
+                        ok = _rooted_at(c.args[0], m, nodep)
+                        col.check(ok, rule, f"{rel}::{ci.name}.{m.name} registers a declared name", f"`{unparse(c.args[0])}` comes from the handler's node `{nodep}`",
+                                  f"`{' '.join(unparse(c).split())[:70]}` puts a name into the typing scope that does not come from `{nodep}` (the construct being visited): the name validator "
+                                  "never sees where it was declared, so a local of that name is accepted and its uses bind to the other variable", rel, c)
+    col.floor(rule, "RegisterVariable call sites", n, 2)
+    lctx = model.cls(LOWER, "LowerToIRVisitor.Context")
+    init = lctx.own_method("__init__")
+    gl = None
+    oem = lctx.own_method("OnEnterModule")
+    for x in ast.walk(oem):
+        if isinstance(x, ast.Assign) and isinstance(x.targets[0], ast.Subscript) and isinstance(x.targets[0].value, ast.Attribute) and "GLOBAL" in unparse(x.value):
+            gl = x.targets[0].value.attr
+    if gl is None:
+        raise AnchorMissing(f"{LOWER}::Context.OnEnterModule fills the table of global names")
+    ng = 0
+    for m in lctx.methods.values():
+        for x in ast.walk(m):
+            if isinstance(x, ast.Assign) and isinstance(x.targets[0], ast.Subscript) and isinstance(x.targets[0].value, ast.Attribute) and x.targets[0].value.attr == gl:
+                ng += 1
+                modp = m.args.args[1].arg if len(m.args.args) > 1 else None
+                ok = m.name == "OnEnterModule" and modp is not None and _rooted_at(x.targets[0].slice, m, modp)
+                col.check(ok, rule, f"{LOWER}::Context.{m.name} global names", "a name is global in lowering iff the module being compiled declares it",
+                          f"`{' '.join(unparse(x).split())[:70]}` makes a name global that is not one of the module's own declarations: a local or parameter of that name is lowered to accesses of "
+                          "the global (lowering looks names up globals first)", LOWER, x)
+            elif isinstance(x, ast.Call) and isinstance(x.func, ast.Attribute) and x.func.attr in ("update", "setdefault") and isinstance(x.func.value, ast.Attribute) and x.func.value.attr == gl:
+                ng += 1
+                col.bad(rule, f"{LOWER}::Context.{m.name} global names", f"`{' '.join(unparse(x).split())[:70]}` adds global names in bulk; only the module's own declarations are global", LOWER, x)
+    col.floor(rule, "writes to lowering's table of global names", ng, 1)
+
+
 def run(model, col, tier):
     G = Grammar(model)
     D = Dispatch(model)
@@ -43,6 +120,7 @@ def run(model, col, tier):
     for v, f in ((vv, NAMES), (ctv, CT)):
         col.check(not D.overrides_generic(v), "R12.1", f"{f}::{v.name} uses the generic dispatch", "v_Generic is not overridden", None, f, v.node)
     # ---- R12.1 -------------------------------------------------------------
+    check_name_sources(model, col, "R12.1")
     val_scope, val_fresh = {}, {}
     from ..sem import expand_helpers, iterations
 
@@ -193,6 +271,27 @@ def run(model, col, tier):
     col.floor("R12.3", "fields that can hold a declaration", n, 8)
     # ---- R12.4 -------------------------------------------------------------
     pipe.check_validator(col, "R12.4", "ValidateVariableNames")
+    # the validator looks at every function and every statement: no handler returns before its traversal on a guess about
+    # what lies below (= R13.5), and every statement of a block reaches the tree at all (= R11.6, list productions)
+    from .c13 import validator_early_exits as _vee
+
+    early = _vee(vv)
+    col.check(not early, "R12.4", f"{NAMES}::{vv.name} looks at everything", "no handler returns before its traversal calls except on the absence / kind of a child",
+              (f"{early[0][0].name} returns under `{' '.join(unparse(early[0][2]).split())[:70]}` before it has visited its node's children" if early else "")
+              + ": declarations below that node are never compared with the visible names", NAMES, early[0][1] if early else vv.node)
+    from . import c11 as _c11
+    from ..report import Collector as _C124
+
+    sub = _C124("C11")
+    _c11.run(model, sub, "quick")
+    n116 = 0
+    for ob in sub.obligations:
+        if ob.rule == "R11.6":
+            ob.detail = "[R11.6] " + (ob.detail or "")
+            ob.rule = "R12.4"
+            col.obligations.append(ob)
+            n116 += 1
+    col.floor("R12.4", "list-production obligations shared with C11", n116, 3)
     pipe.makepass_process(col, "R12.4")
     pipe.check_gating(col, "R12.4")
     pipe.check_pass_freshness(col, "R12.4", ["ValidateVariableNames", "ComputeTypes"])
